@@ -248,7 +248,7 @@ def run(ctx):
     quick = ctx.tier == "quick"
     ctx.assumptions += [
         "contents are classes in the models (old / new / part / empty ...; line ids; UTF-8 length classes; symbols x n r): a class stands for content of any size inside its class, texts and sizes are sampled (seeded)",
-        "small scope of the exhaustive part: <= 2 distinguished items per replace_file call (2 = many), texts of <= 2 (thorough 3) characters in <= 3 chunks, lists of <= 2 (3) lines with <= 2 hunks, <= 3 arguments of <= 2 (3) elements, gzip contents of <= 3 (4) symbols in <= 3 members",
+        "small scope of the exhaustive part: <= 2 distinguished items per replace_file call (2 = many), texts of <= 2 (thorough 3) characters in <= 3 chunks, lists of <= 2 (3) lines with <= 2 hunks, <= 3 arguments of <= 2 elements over 3 (4) distinct values, gzip contents of <= 3 (4) symbols in <= 3 members",
         "unspecified, executed, any outcome accepted: hunks beyond the end of the list (refused or cut like a slice; anything else is a violation), reversed ranges, return values of patch_lines / replace_file, mode / ownership of the published file, zero-byte remote, garbage after the last gzip member, non-UTF-8 content, lines returned for content with carriage returns",
         "the process runs with a UTF-8 locale encoding (download_gunzip_lines decodes with the locale's encoding); otherwise the gzip leg uses ASCII content only",
         "write faults are byte limits (RLIMIT_FSIZE): which write / flush / close fails is left to TLC; a fault through the audit hook or the open() proxy counts only when it took effect (an implementation that does not perform the operation is skipped; fewer than 30 % of the hook / byte-limit faults taking effect is a machinery failure); a write fault on empty content is unrealisable and not replayed",
@@ -393,6 +393,9 @@ def _run(ctx, quick, tlcs, pool, tm, t00):
                 raise core.MachineryError("fs history %d: %s" % (h, c["msg"]))
             hcalls += 1
             ctx.case_seen(("fs-hist", h, c["call"]))
+            if c.get("bad_ret") and len(ctx.violations) < 5:
+                ctx.violation({"kind": "fs-hist", "seed": ctx.seed, "hidx": h, "call": c["call"], "ncalls": ncalls, "gcfg": gcfg},
+                              "call %d of history %d: %s" % (c["call"] + 1, h, c["bad_ret"]))
             if c["status"] == "ok":
                 fs_traces.append(c["trace"])
                 origin.append(("fs-hist", h, c["call"]))
@@ -545,6 +548,9 @@ def replay(ctx, case):
         gcs = _gcases(ctx, case)
         ap = emit(ctx, "AtomicPublish", "AtomicPublish_emit.cfg")[1]
         calls = F.history(ctx.work, seed, case["hidx"], [c["in"] for c in ap], gcs, case["ncalls"])
+        bad = [c["bad_ret"] for c in calls if c.get("bad_ret")]
+        if bad:
+            return "history %d: %s" % (case["hidx"], bad[0])
         traces = [c["trace"] for c in calls if c["status"] == "ok"]
         acc, _, _ = core.validate_traces(ctx, "TraceAtomicPublish", "TraceAtomicPublish.cfg", traces, extra_env={"TRACE_DIAG": "0"})
         bad = [i for i in range(1, len(traces) + 1) if i not in acc]
